@@ -62,7 +62,15 @@ func run(b kit.Batch, r *kit.R) {
 			CheckCuts(c, "vm", cfg, p, p.NumReqs)
 			return
 		}
-		cfg := sim.RandomStackCfg(c.Rng, sim.GenOpts{NumReqs: p.NumReqs, AllowDRAM: true, AllowBanked: true, MaxDrivers: 2})
+		cfg := sim.RandomStackCfg(c.Rng, sim.GenOpts{NumReqs: p.NumReqs, AllowDRAM: true, AllowBanked: true, MaxDrivers: 2, ForceWB: c.Rng.Intn(3) == 0})
+		for _, l := range cfg.Levels {
+			if l.Kind == "wb" && c.Rng.Intn(2) == 0 {
+				// a scripted drain + filtered flush + enable in the middle of the stream: cuts also land inside it
+				cfg.WithCtrl, cfg.FlushAt, cfg.FlushLines = true, 30+c.Rng.Intn(200), 2+c.Rng.Intn(10)
+				r.Count("assemblies/with-mid-stream-drain-flush-enable", 1)
+				break
+			}
+		}
 		c.Desc(cfg)
 		r.Count("assemblies/memory-hierarchy", 1)
 		CheckCuts(c, "stack", cfg, p, p.NumReqs)
